@@ -4,7 +4,8 @@ claim('C04', 'proof',
       'statement\'s acceptance predicate is false; `is_compatible` True implies acceptance-set inclusion; `_extend` narrows and '
       'leaves the base compatible (Number, `ListKey.extend`, `List._extend` through the real `Field.extend`, `Tuple._extend` in all four fixed/variable '
       'combinations incl. the one-field-per-position shape invariant); `apply` result accepted, idempotent, spec unchanged, also with the modifiers '
-      'frozen / noneable / default / allow_partial symbolic; `set_default` stores only a default the spec accepts and leaves the old one when it refuses. Obligations are discharged by z3 for all '
+      'frozen / noneable / default / allow_partial symbolic; `set_default` stores only a default the spec accepts and leaves the old one when it refuses; `Schema.is_compatible` is True exactly when both '
+      'schemas declare the same keys and the fields are compatible key by key, whatever the declaration orders (shape-bounded: <= 3 keys, 20 obligations, labelled bounded). Obligations are discharged by z3 for all '
       'bounds/sizes/values; nested element specs enter through an induction hypothesis (uninterpreted acceptance set + law).',
       'Trusted: pyvc engine (cross-checked per path against CPython), builtin axioms, A-INDUCTION for nesting, floats as reals. '
       'Dict/Object/Union/Callable/Type/Any specs and Schema-level extend/compat are not under contract: the bounded driver (bounded/c04_value_specs.py: '
@@ -100,7 +101,7 @@ claim('C14', 'proof',
       'Selectors: `compute_num_output` returns the documented count (n, ceil(n*len) within [0, len], or len); `First`/`Last` return exactly the first/last '
       'min(count, len) members in order; `Top`/`Bottom` (non-cluster) return min(count, len) members, all drawn from the input; the input population is left '
       'untouched -- for populations of any size. Random source of the 12 seeded operator / generator classes: the hook that runs after every symbolic update leaves the '
-      'global `random` module for seed None and a fresh random.Random(seed) from exactly that seed for every integer (0 included). Mutators, recombinators, NSGA2/NEAT and the composition algebra are covered by the bounded tier '
+      'global `random` module for seed None and a fresh random.Random(seed) from exactly that seed for every integer (0 included), and a permutation recombinator pushes its seed into a seeded `where` filter on every update. Mutators, recombinators, NSGA2/NEAT and the composition algebra are covered by the bounded tier '
       '(spec.validate + alignment of every child, inputs unchanged, seeded determinism).',
       'Trusted: engine; sorted(key=...) is axiomatised as a rearrangement (membership + length), the order by key is not modelled.',
       'contract-based deductive verification (pyvc) + bounded stand-in for mutators/recombinators/composition', 'DESIGN.md 5/C14')
@@ -144,14 +145,14 @@ claim('C07', 'proof',
       'Trusted: engine; `base.clone` on children is the induction hypothesis; constructors establish a well-formed tree (C01).',
       'contract-based deductive verification (pyvc loop contracts) + bounded stand-in', 'DESIGN.md 5/C07')
 claim('C09', 'proof',
-      'Dispatch discipline of the mutators, on the real bodies for containers of any size (16 unbounded obligations): on every returning path of '
-      '`List.append/extend/insert/__setitem__/__delitem__/pop/__iadd__/__imul__` (a delegating mutator is checked against the callee\'s contract of this family), `Dict.__setitem__/__delitem__/pop/popitem/setdefault/update` and `Object.__setattr__` '
+      'Dispatch discipline of the mutators, on the real bodies for containers of any size (17 unbounded obligations): on every returning path of '
+      '`List.append/extend/insert/__setitem__/__delitem__/pop/__iadd__/__imul__` (a delegating mutator is checked against the callee\'s contract of this family), `Dict.__setitem__/__delitem__/pop/popitem/setdefault/update`, `Object.__setattr__` and `Functor.__delattr__` '
       'on which the tree is written, `_notify_field_updates` is called exactly once, after the last write, when change notification is enabled (one batch per call: '
       'no per-element dispatch, no shortcut that skips it -- it is also what resets the cached derived facts) and not at all when it is disabled; a mutator that '
       'writes without consulting the notification flag fails. The dispatcher itself, `Symbolic._notify_field_updates`, is executed symbolically on an ancestor chain '
       'of three nodes with one or two updates (paths, keys and subscribe flags symbolic): each ancestor-or-self of an update target receives exactly one `_on_change`, '
       'deepest first; a subscribing receiver gets exactly {update.path - receiver.path: update}, a non-subscribing one {}; the three content caches are reset before '
-      'the handler; nothing else is touched; notify_parents=False stops at self -- these 16 obligations have a fixed tree shape and are a BOUNDED stand-in, not counted '
+      'the handler; nothing else is touched; the dispatcher enters no settings scope around the handlers; notify_parents=False stops at self -- these 20 obligations have a fixed tree shape and are a BOUNDED stand-in, not counted '
       'as proved. True old/new values, exactly-once delivery through whole trees and freshness of derived facts after histories are checked by the bounded driver.',
       'Trusted: engine; A-PATHORDER (KeyPath order on prefix-related paths is by depth); the write primitives either change nothing and return None or write and return '
       'the FieldUpdate (their own contracts are C01/C03). `List.clear/sort/reverse`, `Dict.clear` and rebind batches go through helpers that are not under this '
@@ -161,7 +162,8 @@ claim('C03', 'proof',
       'Formalize-then-store kernel on the real code: `List._formalized_value` returns relocate(apply(from_json(v))) exactly when a value spec is bound and type '
       'checking is on (with the effective allow_partial), and relocate(from_json(v)) otherwise; the list and dict write primitives hand exactly the formalized '
       'value to the C-level store, and when formalization raises (the schema rejected the value) nothing at all was written or detached before -- the targeted '
-      'location keeps its previous content; `append`/`insert`/`del` keep the length within [min_size, max_size] and leave the list unchanged when they refuse. '
+      'location keeps its previous content; `append`/`insert`/`del` keep the length within [min_size, max_size] and leave the list unchanged when they refuse; '
+      '`Schema.is_compatible` -- on whose answer a value that carries its own spec is adopted without re-validation -- pairs fields by key (shape-bounded, shared with C04). '
       'The full schema vocabulary x every write path x valid/invalid values is exercised by the bounded tier (re-apply of every stored member after every step).',
       'Trusted: engine; `Field.apply`/`ValueSpec.apply` are abstracted (C04 proves their algebra); `_relocate_if_symbolic` by its C01 contract. Object construction, '
       'Schema.apply key resolution and frozen/required-field rules are bounded-tier only.',
@@ -169,7 +171,7 @@ claim('C03', 'proof',
 claim('C12', 'proof',
       'Alignment kernel: `DNA._sym_clone` hands the copy the very spec object of the original, carries over exactly the clone-able user data and metadata keys, '
       'and does not write the original; `DNASpec.first_dna` / `next_dna` / `random_dna` and `DNA.from_fn` hand out the generated DNA after exactly one `use_spec` with the spec '
-      'that was asked -- also when `attach_spec` is omitted -- and unbound only on an explicit attach_spec=False (20 obligations in all). The exported views themselves (to_numbers/from_numbers, to_dict/from_dict under all option combinations, '
+      'that was asked -- also when `attach_spec` is omitted -- and unbound only on an explicit attach_spec=False; the copy of a sealed DNA is sealed again after its metadata is re-attached and a deep clone holds deep copies of the retained metadata values (21 obligations in all). The exported views themselves (to_numbers/from_numbers, to_dict/from_dict under all option combinations, '
       'compact/verbose JSON, lookups by id/name/decision point) and alignment after every library operation that produces DNAs are covered by the bounded tier only.',
       'NARROW proof: the view functions thread mutable closures and whole-tree recursion and are outside the engine\'s reach; for them the check is a bounded '
       'stand-in (all valid DNAs of generated specs up to a size bound x all option combinations). Trusted: engine; `Object._sym_clone` returns a fresh copy (C07).',
